@@ -94,7 +94,7 @@ package main
 // own cursor starts at 0 over a finite record sequence is the (assumed, see DESIGN) abstraction of
 // NewRoundRobinDecoder$1's proved contract.
 //@ func decoder
-//@   property C13
+//@   property C13 C17
 //@   returns (dec, closer, err)
 //@   requires [at-least-one-file] len(files) >= 1
 //@   before call NewRoundRobinDecoder: assert [one-decoder-per-file] len(arg0) == len(files) && (forall k int :: 0 <= k && k < len(arg0) ==> arg0[k] != nil)
@@ -133,7 +133,7 @@ package main
 //@   inline
 
 //@ func report
-//@   property C13
+//@   property C13 C10 C12
 //@   returns (err)
 //@   pragma frame off
 //@   pragma ifacecalls abstract
@@ -215,15 +215,20 @@ package main
 //@   ghost got int = 0
 //@   ghost written int = 0
 //@   ghost observed int = 0
+//@   ghost signals int = 0
+//@   ghost stops int = 0
 //@   at recv res: ghost got = got + 1
+//@   at recv sig: ghost signals = signals + 1
+//@   at call Stop: assert [stop-only-on-a-signal] signals == stops + 1 ; ghost stops = stops + 1
 //@   at call Observe: assert [observes-the-result-just-received] arg1 == r && ok && observed == written ; ghost observed = observed + 1
 //@   before call Observe: assume [the-attack-sends-only-non-nil-results] arg1 != nil
 //@   before call Encode: assume [the-attack-sends-only-non-nil-results] arg1 != nil
 //@   at call Encode: assert [writes-the-result-just-received] arg1 == r && ok && written + 1 == got ;
 //@        assert [every-written-result-was-observed-first-when-metrics-are-on] pm != nil ==> observed == written + 1 ; ghost written = written + 1
 //@   ensures [every-received-result-written-once] err == nil ==> written == got || written + 1 == got
+//@   ensures [every-signal-first-asks-the-attack-to-stop] signals == stops
 //@   loop 1
-//@     invariant written == got && (pm != nil ==> observed == written) && atk == old(atk) && atk != nil && atk.stopch == old(atk.stopch) && enc == old(enc) && enc != nil && pm == old(pm)
+//@     invariant written == got && signals == stops && (pm != nil ==> observed == written) && atk == old(atk) && atk != nil && atk.stopch == old(atk.stopch) && enc == old(enc) && enc != nil && pm == old(pm)
 //@     invariant (closed(atk.stopch) <==> done(&atk.stopOnce)) && (pm != nil ==> wfMetrics(pm))
 
 // ---------------------------------------------------------------------------------- C17
